@@ -3,6 +3,7 @@ package props
 // C12 — Attribute queries disclose only requested data, to registered requesters.
 
 import (
+	"bytes"
 	"fmt"
 	"sort"
 	"strings"
@@ -33,6 +34,9 @@ type C12Case struct {
 	// Hist: the service provider named by the query's Issuer used the IdP before and was then deregistered, or re-registered
 	// with another certificate (the rogue key's at first).
 	Hist *History `json:"history,omitempty"`
+	// SignFault: signing the answer cannot work ("mismatch": the storage hands out a certificate of another key; "sha512": the
+	// configured algorithm is one the assertion signer does not implement): no user data may leave then
+	SignFault string `json:"sign_fault,omitempty"`
 }
 
 func genC12Case(t *rapid.T) C12Case {
@@ -159,6 +163,9 @@ func genC12Case(t *rapid.T) C12Case {
 	q.DestPrefixed = c.DestKind != "absent" && rapid.IntRange(0, 3).Draw(t, "destprefixed") == 0
 	c.Query = q
 	c.Noise = rapid.IntRange(0, 2).Draw(t, "noise") == 0
+	if rapid.IntRange(0, 7).Draw(t, "signfault") == 0 {
+		c.SignFault = rapid.SampledFrom([]string{"mismatch", "sha512", "nokey"}).Draw(t, "signfaultkind")
+	}
 	if rapid.IntRange(0, 3).Draw(t, "history") == 0 {
 		for i, sp := range spec.SPs {
 			if sp.EntityID == issuer {
@@ -265,9 +272,15 @@ func c12Run(c C12Case) c12Outcome {
 	if c.Noise {
 		wspec = withNoise(wspec)
 	}
+	if c.SignFault == "sha512" {
+		wspec.IdP.SignatureAlgorithm = world.AlgRSASHA512
+	}
 	w := buildWithHistory(wspec, c.Hist, c.Host)
 	if c.Noise {
 		runNoise(w, wspec)
+	}
+	if c.SignFault == "mismatch" || c.SignFault == "nokey" {
+		w.Store.SetFaults([]world.Fault{{Op: "GetResponseSigningKey", Occurrence: 0, Kind: c.SignFault}})
 	}
 	now := time.Now()
 	hr := c12Render(c, now)
@@ -351,9 +364,22 @@ func c12Run(c C12Case) c12Outcome {
 		}
 	}
 	if !discloses {
-		if resp.Success() {
+		if resp != nil && resp.Success() {
 			add("success-without-assertion", "status Success but no assertion content")
 		}
+		// whatever the reply is, the user's data must not be in it
+		for _, u := range c.Spec.Users {
+			for _, v := range []string{u.Email, u.FullName, u.Username, u.UserIDAttr} {
+				if len(v) >= 6 && bytes.Contains(rep.Body, []byte(v)) {
+					add("user-data-outside-a-success-response", "the reply (status %d) is not a Success response with an assertion, yet its body contains the user's %q", rep.Status, v)
+					return out
+				}
+			}
+		}
+		return out
+	}
+	if c.SignFault != "" {
+		add("disclosed-although-signing-cannot-work", "user data disclosed although the answer cannot be signed (%s)", c.SignFault)
 		return out
 	}
 	out.disclosed = true
